@@ -359,12 +359,16 @@ SESSION_POOL = {
     "prverbose": {"text": "# pytrapic: no-compact, inline-functions\n" + FN_SRC, "dir": {"compact": False, "inline_functions": True}, "cx": False, "fmt": True},
 }
 SESSION_OBJS = {"oa": {"compact": False, "inline_functions": False, "remove_labels": False},
-                "ob": {"compact": True, "inline_functions": True, "remove_labels": False}}
+                "ob": {"compact": True, "inline_functions": True, "remove_labels": False},
+                # "on": the caller passes no options at all - every call gets fresh defaults
+                "on": {"compact": False, "inline_functions": True, "remove_labels": False}}
+DEFAULTS = dict(original_code_as_comment=False, generated_comments=False, inline_functions=True, remove_labels=False, append_version=True,
+                compact=False, tail_call_optimization=False, use_push_pop_functions=False)
 SESSION_OPTS = ("compact", "inline_functions", "remove_labels")
 
 
-def _full_opts(o):
-    d = dict(cw.REF)
+def _full_opts(o, obj="oa"):
+    d = dict(DEFAULTS) if obj == "on" else dict(cw.REF)
     d.update(o)
     return d
 
@@ -389,25 +393,31 @@ def _session_worker(job):
     sp.Popen = Spy
     try:
         for hist in job["histories"]:
-            objs = {i: CompileOptions(**_full_opts(v)) for i, v in SESSION_OBJS.items()}
+            objs = {i: (CompileOptions(**_full_opts(v)) if i != "on" else None) for i, v in SESSION_OBJS.items()}
             trace = []
             for k, st in enumerate(hist):
                 s, i = st["src"], st["obj"]
                 o = objs[i]
-                before = {n: bool(getattr(o, n)) for n in SESSION_OPTS}
-                before_all = dict(vars(o))
+                if o is None:
+                    shown = CompileOptions()           # what an omitted argument means (and must keep meaning)
+                    before = {n: bool(getattr(shown, n)) for n in SESSION_OPTS}
+                    before_all = dict(vars(shown))
+                else:
+                    before = {n: bool(getattr(o, n)) for n in SESSION_OPTS}
+                    before_all = dict(vars(o))
                 cx0 = [sid for sid, p in pool.items() if p["cx"] and any(p["marker"] in c for c in U._eval_constexpr_cache)]
                 mode0, hinit0 = U._output_mode.name, bool(U._all_hashes)
                 src_arg = {"": pool[s]["text"]} if k % 2 else pool[s]["text"]
                 src_copy = json.loads(json.dumps(src_arg))
                 del spawned[:]
                 try:
-                    res = compile_code(src_arg, o)
+                    res = compile_code(src_arg, o) if o is not None else compile_code(src_arg)
                     raised = None
                 except BaseException as e:
                     res, raised = None, repr(e)
-                after = {n: bool(getattr(o, n)) for n in SESSION_OPTS}
-                key = json.dumps([s] + [before[n] for n in SESSION_OPTS])
+                oo = o if o is not None else CompileOptions()
+                after = {n: bool(getattr(oo, n)) for n in SESSION_OPTS}
+                key = json.dumps([s, "on" if o is None else "obj"] + [before[n] for n in SESSION_OPTS])
                 txt = json.dumps(res, sort_keys=True, default=repr)
                 if CX_TIMEOUT in txt or fresh.get(key) == "?timeout":
                     break  # the helper process did not answer within the implementation's 1 s (machine load): the rest of this history is undecided
@@ -415,7 +425,7 @@ def _session_worker(job):
                 trace.append({"src": s, "obj": i, "before": before, "after": after, "mode": U._output_mode.name, "hinit": bool(U._all_hashes),
                               "cache": [sid for sid, p in pool.items() if p["cx"] and any(p["marker"] in c for c in U._eval_constexpr_cache)],
                               "same": bool(same), "spawned": bool(spawned), "mode0": mode0, "hinit0": hinit0, "cache0": cx0,
-                              "other_fields_changed": dict(vars(o)) != dict(before_all, **{n: getattr(o, n) for n in SESSION_OPTS}),
+                              "other_fields_changed": dict(vars(oo)) != dict(before_all, **{n: getattr(oo, n) for n in SESSION_OPTS}),
                               "source_mapping_changed": src_arg != src_copy, "raised": raised,
                               "result": res if not same else None})
             if trace:
@@ -482,10 +492,11 @@ def check_c11(tier, t0):
     pairs = []
     for s in srcids:
         for bits in itertools.product([False, True], repeat=3):
-            pairs.append((s, dict(zip(SESSION_OPTS, bits))))
+            pairs.append((s, "obj", dict(zip(SESSION_OPTS, bits))))
+        pairs.append((s, "on", dict(SESSION_OBJS["on"])))
     with ThreadPoolExecutor(12) as ex:
-        fr = list(ex.map(_fresh_result, [{"src": pool[s]["text"], "options": _full_opts(o)} for s, o in pairs]))
-    fresh = {json.dumps([s] + [o[n] for n in SESSION_OPTS]): v for (s, o), v in zip(pairs, fr)}
+        fr = list(ex.map(_fresh_result, [{"src": pool[s]["text"], "options": _full_opts(o, "on" if kind == "on" else "oa")} for s, kind, o in pairs]))
+    fresh = {json.dumps([s, kind] + [o[n] for n in SESSION_OPTS]): v for (s, kind, o), v in zip(pairs, fr)}
     bad_fresh = [k for k, v in fresh.items() if v.startswith("!")]
     if bad_fresh:
         raise MachineryError("fresh-process compilation failed for %s: %s" % (bad_fresh[0], fresh[bad_fresh[0]]))
